@@ -1,6 +1,6 @@
 """Engine "reload" (property C20): the real cmd/run.go + cmd/reload_manager.go under the
 deterministic scheduler, compiled against a simulated package `control` (/verif/fakecontrol)."""
-import glob, json, os, re
+import glob, os, re, sys
 
 _VERIF = os.path.dirname(os.path.abspath(__file__))
 
@@ -21,7 +21,8 @@ def _gen_reload(REPO, wd):
     src = open(os.path.join(REPO, "cmd", "run.go")).read()
     n = len(re.findall(r"\bsignal\.Notify\(", src))
     if n != 1:
-        raise SystemExit("INFRA-ERROR: engines_reload: expected exactly one signal.Notify( in cmd/run.go, found %d" % n)
+        print("INFRA-ERROR: engines_reload: expected exactly one signal.Notify( in cmd/run.go, found %d" % n, file=sys.stderr)
+        sys.exit(2)  # infrastructure, never a violation
     src = re.sub(r"\bsignal\.Notify\(", "verifSignalNotify(", src)
     # optional clean-up seam: lets the harness end the reload worker after Run returned
     src = src.replace("reloadReqs := make(chan reloadRequest, 1)", "reloadReqs := verifReloadReqsCreated(make(chan reloadRequest, 1))", 1)
@@ -30,13 +31,6 @@ def _gen_reload(REPO, wd):
     os.makedirs(pre, exist_ok=True)
     open(os.path.join(pre, "run.go"), "w").write(src)
     ov[os.path.join(REPO, "cmd", "run.go")] = os.path.join(pre, "run.go")
-    # 4. rules of open known findings: the harness reports each of them once per process
-    known = []
-    kf = os.path.join(_VERIF, "known_findings.json")
-    if os.path.exists(kf):
-        for k in json.load(open(kf)).get("findings", []):
-            if k.get("property") == "C20" and k.get("status") == "open":
-                known.append(k["rule"])
     return ov
 
 
